@@ -10,6 +10,7 @@ let rec nat_of_int i = if i <= 0 then O else S (nat_of_int (i - 1))
 let rec int_of_nat = function O -> 0 | S n -> 1 + int_of_nat n
 
 let words s = List.filter (fun x -> x <> "") (String.split_on_char ' ' s)
+let tmap f l = List.rev (List.rev_map f l)   (* tail recursive: traces have up to 10^6 events *)
 
 let parse_label s =
   let tl k = String.sub s k (String.length s - k) in
@@ -43,10 +44,10 @@ let () =
            | ["replay"; n; r; w; bm] ->
              let p = { pn = nat_of_int (int_of_string n); pR = nat_of_int (int_of_string r);
                        pW = nat_of_int (int_of_string w);
-                       poss = List.map (fun x -> nat_of_int (int_of_string x)) (words ps);
+                       poss = tmap (fun x -> nat_of_int (int_of_string x)) (words ps);
                        bmax = nat_of_int (int_of_string bm) } in
              let ew = Array.of_list (words evs) in
-             let el = List.map parse_event (Array.to_list ew) in
+             let el = tmap parse_event (Array.to_list ew) in
              let (((st, k), sp), ok) = replay p (init p) el O O in
              let k = int_of_nat k in
              Printf.printf "%s accepted=%d spurious=%d final=%d%s\n" (if ok then "ok" else "rej") k (int_of_nat sp)
